@@ -65,17 +65,17 @@ func (s *Store) putNode(n datamodel.Node) cid.Cid {
 
 // GenDAG builds a small dag-cbor DAG from choices: a tree of given fanouts with payload bytes, optionally
 // re-linking an earlier block so that the same block occurs at several traversal positions.
-func GenDAG(s *Store, intn func(int) int) (root cid.Cid, blocks int) {
+func GenDAG(s *Store, intn func(int) int, salt int) (root cid.Cid, blocks int) {
 	var leaves []cid.Cid
-	nleaves := 1 + intn(8)
+	nleaves := 1 + intn(10)
 	for i := 0; i < nleaves; i++ {
-		size := 1 + intn(600)
+		size := 1 + intn(1200)
 		payload := make([]byte, size)
 		for j := range payload {
-			payload[j] = byte(i*31 + j)
+			payload[j] = byte(i*31 + j + salt*7)
 		}
 		n, _ := qp.BuildMap(basicnode.Prototype.Any, 2, func(ma datamodel.MapAssembler) {
-			qp.MapEntry(ma, "i", qp.Int(int64(i)))
+			qp.MapEntry(ma, "i", qp.Int(int64(i+1000*salt)))
 			qp.MapEntry(ma, "data", qp.Bytes(payload))
 		})
 		leaves = append(leaves, s.putNode(n))
@@ -101,7 +101,7 @@ func GenDAG(s *Store, intn func(int) int) (root cid.Cid, blocks int) {
 		mid = append(mid, s.putNode(n))
 	}
 	rn, _ := qp.BuildMap(basicnode.Prototype.Any, 2, func(ma datamodel.MapAssembler) {
-		qp.MapEntry(ma, "name", qp.String("root"))
+		qp.MapEntry(ma, "name", qp.String(fmt.Sprintf("root-%d", salt)))
 		qp.MapEntry(ma, "kids", qp.List(int64(len(mid)), func(la datamodel.ListAssembler) {
 			for _, c := range mid {
 				qp.ListEntry(la, qp.Link(cidlink.Link{Cid: c}))
